@@ -1,6 +1,8 @@
-// Target for the kernel-history properties C01, C02 (oracle chosen by id).
+// Target for the kernel-history properties C01, C02, C03, C04, C12, C17 (oracle set chosen by id).
 #include "interp.hh"
 #include "oracle_c01.hh"
+#include "props.hh"
+#include "snap.hh"
 #include "rcmain.hh"
 
 using namespace vf;
@@ -17,7 +19,12 @@ std::vector<std::pair<int, int>> weights(const std::string &id) {
       {4, O_DEL_V}, {5, O_DEL_E}, {5, O_DEL_F}, {5, O_DEL_C},
       {3, O_SWAP_V}, {3, O_SWAP_E}, {3, O_SWAP_F}, {3, O_SWAP_C},
       {3, O_GC}, {1, O_CLEAR}, {2, O_EN_VBU}, {2, O_EN_EBU}, {2, O_EN_FBU}, {3, O_EN_DEFERRED}, {3, O_EN_FAST}};
-  (void)id;
+  auto add = [&](int wt, int code) { w.emplace_back(wt, code); };
+  auto setw = [&](int code, int wt) { for (auto &x : w) if (x.second == code) x.first = wt; };
+  if (id == "C03" || id == "C04" || id == "C12" || id == "C17") { add(id == "C03" ? 16 : 9, O_PROP_CREATE); add(id == "C03" ? 18 : 12, O_PROP_WRITE); add(1, O_PROP_DROP); }
+  if (id == "C04") { add(8, O_STATUS_MARK); add(6, O_STATUS_GC); setw(O_GC, 6); setw(O_EN_DEFERRED, 5); setw(O_CLEAR, 0); }
+  if (id == "C12") { setw(O_EN_VBU, 5); setw(O_EN_EBU, 5); setw(O_EN_FBU, 5); add(2, O_STATUS_MARK); add(2, O_STATUS_GC); }
+  if (id == "C17") { setw(O_SWAP_V, 8); setw(O_SWAP_E, 8); setw(O_SWAP_F, 8); setw(O_SWAP_C, 8); setw(O_CLEAR, 0); }
   return w;
 }
 
@@ -26,30 +33,95 @@ static std::string oneline(std::string s) {
   return s;
 }
 
+// circulators that need a disabled bottom-up kind must be immediately invalid (C12)
+static std::string invalid_circulators(const PolyMesh &m) {
+  bool v = m.has_vertex_bottom_up_incidences(), e = m.has_edge_bottom_up_incidences(), f = m.has_face_bottom_up_incidences();
+  std::ostringstream o;
+#define MUST_INVALID(cond, expr, what)                                                                 \
+  if (!(cond)) { if ((expr).valid()) { o << what << " is valid although a bottom-up kind it needs is disabled"; return o.str(); } }
+  for (auto vh : m.vertices()) {
+    MUST_INVALID(v, m.voh_iter(vh), "voh_iter");
+    MUST_INVALID(v, m.vih_iter(vh), "vih_iter");
+    MUST_INVALID(v, m.vv_iter(vh), "vv_iter");
+    MUST_INVALID(v, m.ve_iter(vh), "ve_iter");
+    MUST_INVALID(v && e, m.vhf_iter(vh), "vhf_iter");
+    MUST_INVALID(v && e && f, m.vf_iter(vh), "vf_iter");
+    MUST_INVALID(v && e && f, m.vc_iter(vh), "vc_iter");
+  }
+  for (auto heh : m.halfedges()) {
+    MUST_INVALID(e, m.hehf_iter(heh), "hehf_iter");
+    MUST_INVALID(e, m.hef_iter(heh), "hef_iter");
+    MUST_INVALID(e && f, m.hec_iter(heh), "hec_iter");
+  }
+  for (auto eh : m.edges()) {
+    MUST_INVALID(e, m.ehf_iter(eh), "ehf_iter");
+    MUST_INVALID(e, m.ef_iter(eh), "ef_iter");
+    MUST_INVALID(e && f, m.ec_iter(eh), "ec_iter");
+  }
+  for (auto ch : m.cells()) { MUST_INVALID(f, m.cc_iter(ch), "cc_iter"); }
+  MUST_INVALID(v && e && f, m.bv_iter(), "bv_iter");
+  MUST_INVALID(e && f, m.bhe_iter(), "bhe_iter");
+  MUST_INVALID(e && f, m.be_iter(), "be_iter");
+  MUST_INVALID(f, m.bhf_iter(), "bhf_iter");
+  MUST_INVALID(f, m.bf_iter(), "bf_iter");
+#undef MUST_INVALID
+  return "";
+}
+
 vf::CaseResult run_case(const std::string &id, const Program &prog, Stats &st) {
   CaseResult res;
   Interp I;
   I.st = &st;
+  const bool twin = (id == "C12");
+  if (twin) { I.add_sut("all-enabled twin", false); I.twin_owner = "C12"; }
   Sut &S = I.add_sut("mesh");
   // initial deletion mode is part of the case: derived from the first op's last argument
   if (!prog.empty()) {
     int m = prog[0].a[4];
-    S.mesh.enable_deferred_deletion((m & 1) != 0);
-    S.mesh.enable_fast_deletion((m & 2) != 0);
-    S.deferred = (m & 1) != 0;
-    S.fast = (m & 2) != 0;
+    for (auto &s : I.suts) {
+      s->mesh.enable_deferred_deletion((m & 1) != 0);
+      s->mesh.enable_fast_deletion((m & 2) != 0);
+      s->deferred = (m & 1) != 0;
+      s->fast = (m & 2) != 0;
+    }
   }
+  const bool use_props = (id == "C03" || id == "C04" || id == "C12" || id == "C17");
+  PropBank bank(I);
   C01Counters c01;
   bool have_cell = false, mutated_after_cell = false, nonempty_after_mutation = false;
-  bool big_closure_delete = false;
+  bool nt = false;  // non-trivial by the id's rule
+  // C04 / C17 pre-state
+  bool pre_c01_ok = false, pre_pending = false;
+  int pending_kinds = 0;
+  RawSnap snap0, snap1;
+  int swap_phase = 0;
+  // C12
+  bool op_while_disabled[3] = {false, false, false};
+
+  auto is_gc = [&](const Prim &p) { return p.t == P_GC || p.t == P_STATUS_GC || (p.t == P_EN_DEFERRED && !p.flag); };
+
+  I.before_step = [&](const Prim &p) {
+    if (id == "C04" && is_gc(p)) {
+      C01Counters tmp;
+      pre_c01_ok = c01_check(S.mesh, tmp).empty();
+      pre_pending = I.has_pending(S) || (p.t == P_STATUS_GC && (!I.marks[0].empty() || !I.marks[1].empty() || !I.marks[2].empty() || !I.marks[3].empty()));
+      pending_kinds = 0;
+      for (int k = 0; k < 4; ++k) {
+        bool any = !I.marks[k].empty();
+        for (size_t i = 0; i + 1 < S.lay.uid_at[k].size(); ++i) if (!I.L.alive(k, S.lay.uid_at[k][i])) any = true;
+        pending_kinds += any;
+      }
+    }
+    if (id == "C17" && p.t == P_SWAP) {
+      C01Counters tmp;
+      pre_c01_ok = c01_check(S.mesh, tmp).empty();
+      if (swap_phase == 0) snap0 = take_snap(S.mesh, &bank, 0);
+      else snap1 = take_snap(S.mesh, &bank, 0);
+    }
+  };
 
   I.on_step = [&](const Prim &p) {
-    if (id == "C01") {
-      uint64_t before = c01.nonempty_answers;
-      std::string m = c01_check(S.mesh, c01);
-      if (!m.empty()) { I.set_fail("C01", "after " + p.render + ": " + m); return false; }
-      if (mutated_after_cell && c01.nonempty_answers > before) nonempty_after_mutation = true;
-    }
+    if (p.t == P_CLEAR) bank.on_clear();
     if (p.t == P_ADD_CELL) have_cell = true;
     if (have_cell && (p.t == P_DELETE || p.t == P_SWAP || p.t == P_SET_EDGE || p.t == P_SET_FACE || p.t == P_SET_CELL ||
                       ((p.t == P_EN_VBU || p.t == P_EN_EBU || p.t == P_EN_FBU) && p.flag)))
@@ -57,26 +129,135 @@ vf::CaseResult run_case(const std::string &id, const Program &prog, Stats &st) {
     if (p.t == P_DELETE) {
       std::string mode = std::string(S.deferred ? "deferred" : "immediate") + (S.fast ? "+fast" : "");
       st.count("delete_mode:" + mode);
-      size_t closure = 1 + p.closure_e.size() + p.closure_f.size() + p.closure_c.size();
-      if (closure >= 2) {
-        st.count("delete_with_closure>=2");
-        // survivor of a higher kind and victim not in the last slot
-        bool higher = false;
-        for (int k = p.kind + 1; k < 4; ++k) if (I.L.n_live(k) > 0) higher = true;
-        if (higher) big_closure_delete = true;
-      }
     }
     if (p.t == P_GC) st.count("gc_calls");
+
+    if (id == "C01") {
+      uint64_t before = c01.nonempty_answers;
+      std::string m = c01_check(S.mesh, c01);
+      if (!m.empty()) { I.set_fail("C01", "after " + p.render + ": " + m); return false; }
+      if (mutated_after_cell && c01.nonempty_answers > before) nonempty_after_mutation = true;
+    } else if (id == "C02") {
+      if (p.t == P_DELETE) {
+        size_t closure = 1 + p.closure_e.size() + p.closure_f.size() + p.closure_c.size();
+        bool higher = false;
+        for (int k = p.kind + 1; k < 4; ++k) if (I.L.n_live(k) > 0) higher = true;
+        if (closure >= 2) st.count("delete_with_closure>=2");
+        if (closure >= 2 && higher) nt = true;
+      }
+    } else if (id == "C03") {
+      std::string m = bank.check(S, 0);
+      if (!m.empty()) { I.set_fail("C03", "after " + p.render + ": " + m); return false; }
+      bool renumber = (p.t == P_SWAP) || (p.t == P_DELETE && !S.deferred) || p.t == P_GC || (p.t == P_EN_DEFERRED && !p.flag);
+      if (renumber) {
+        st.count("renumbering_ops_with_live_props", bank.slots.empty() ? 0 : 1);
+        for (int k = 0; k < 4; ++k) if (bank.diverse_on(k)) { nt = true; break; }
+      }
+    } else if (id == "C04") {
+      std::string m = bank.check(S, 0);
+      if (!m.empty()) { I.set_fail(is_gc(p) ? "C04" : "C03", "after " + p.render + ": " + m); return false; }
+      if (is_gc(p)) {
+        if (S.mesh.needs_garbage_collection()) { I.set_fail("C04", "after " + p.render + ": needs_garbage_collection() still true"); return false; }
+        if (pre_c01_ok) {
+          C01Counters tmp;
+          std::string m2 = c01_check(S.mesh, tmp);
+          if (!m2.empty()) { I.set_fail("C04", "after " + p.render + ": " + m2); return false; }
+        }
+        if (pre_pending) st.count(p.t == P_STATUS_GC ? "status_gc_with_work" : "gc_with_pending");
+        if (p.t == P_STATUS_GC && p.flag) st.count("status_gc_manifold");
+        bool tracked_removed = false, tracked_survivor = false;
+        if (p.t == P_STATUS_GC && p.n) {
+          for (size_t i = 0; i < p.tr_v.size(); ++i) { if (p.tr_v[i] >= 0) (S.res_v[i].idx() < 0 ? tracked_removed : tracked_survivor) = true; }
+          for (size_t i = 0; i < p.tr_c.size(); ++i) { if (p.tr_c[i] >= 0) (S.res_c[i].idx() < 0 ? tracked_removed : tracked_survivor) = true; }
+          for (size_t i = 0; i < p.tr_he.size(); ++i) { if (p.tr_he[i].e >= 0) (S.res_he[i].idx() < 0 ? tracked_removed : tracked_survivor) = true; }
+          for (size_t i = 0; i < p.tr_hf.size(); ++i) { if (p.tr_hf[i].f >= 0) (S.res_hf[i].idx() < 0 ? tracked_removed : tracked_survivor) = true; }
+          if (tracked_removed) st.count("gc_with_tracked_handle_removed");
+          if (tracked_survivor) st.count("gc_with_tracked_survivor");
+        }
+        if (pre_pending && pending_kinds >= 2 && (p.t != P_STATUS_GC || !p.n || (tracked_survivor && tracked_removed))) nt = true;
+      }
+    } else if (id == "C12") {
+      for (size_t i = 0; i < I.suts.size(); ++i) {
+        std::string m = bank.check(*I.suts[i], i);
+        if (!m.empty()) { I.set_fail(i == 0 ? "C03" : "C12", "[" + I.suts[i]->name + "] after " + p.render + ": " + m); return false; }
+      }
+      C01Counters tmp;
+      if (!c01_check(I.suts[0]->mesh, tmp).empty()) { I.set_fail("C01", "twin fails the incidence oracle"); return false; }
+      std::string m = c01_check(S.mesh, c01);
+      if (!m.empty()) { I.set_fail("C12", "after " + p.render + ": " + m); return false; }
+      m = invalid_circulators(S.mesh);
+      if (!m.empty()) { I.set_fail("C12", "after " + p.render + ": " + m); return false; }
+      bool mut = p.t == P_DELETE || p.t == P_SWAP || p.t == P_GC || p.t == P_STATUS_GC || (p.t == P_EN_DEFERRED && !p.flag);
+      if (mut) {
+        if (!S.vbu) op_while_disabled[0] = true;
+        if (!S.ebu) op_while_disabled[1] = true;
+        if (!S.fbu) op_while_disabled[2] = true;
+        if (!S.vbu || !S.ebu || !S.fbu) st.count(std::string("mutation_with_disabled_kind:") + (S.deferred ? "deferred" : "immediate") + (S.fast ? "+fast" : ""));
+      }
+      if ((p.t == P_EN_VBU && p.flag && op_while_disabled[0]) || (p.t == P_EN_EBU && p.flag && op_while_disabled[1]) ||
+          (p.t == P_EN_FBU && p.flag && op_while_disabled[2])) { nt = true; st.count("reenable_after_mutation"); }
+    } else if (id == "C17") {
+      std::string m = bank.check(S, 0);
+      if (!m.empty()) { I.set_fail(p.t == P_SWAP ? "C17" : "C03", "after " + p.render + ": " + m); return false; }
+      if (p.t == P_SWAP) {
+        RawSnap now = take_snap(S.mesh, &bank, 0);
+        int h1 = S.lay.slot(p.kind, p.u2), h2 = S.lay.slot(p.kind, p.u);  // after the swap u sits where u2 was
+        const RawSnap &before = swap_phase == 0 ? snap0 : snap1;
+        RawSnap exp = relabel_snap(before, Relabel{p.kind, h1, h2});
+        std::string d = snap_diff(exp, now, /*ordered*/ false);
+        if (!d.empty()) { I.set_fail("C17", "after " + p.render + " (handles " + std::to_string(h1) + "<->" + std::to_string(h2) + "): " + d); return false; }
+        if (pre_c01_ok) {
+          C01Counters tmp;
+          std::string m2 = c01_check(S.mesh, tmp);
+          if (!m2.empty()) { I.set_fail("C17", "after " + p.render + ": " + m2); return false; }
+        }
+        if (swap_phase == 1) {
+          std::string d2 = snap_diff(snap0, now, /*ordered*/ true);
+          if (!d2.empty()) { I.set_fail("C17", "applying " + p.render + " twice does not restore the original state: " + d2); return false; }
+        }
+        st.count("swaps_checked");
+        if (p.u != p.u2) {
+          nt = true;
+          if (!I.L.alive(p.kind, p.u) || !I.L.alive(p.kind, p.u2)) st.count("swaps_with_deleted_slot");
+        } else st.count("self_swaps");
+      }
+    }
     return true;
   };
 
   for (size_t i = 0; i < prog.size(); ++i) {
-    bool cont = I.run_op(prog[i]);
-    res.annot.push_back(I.cur_annot);
-    st.count(std::string("op:") + optable()[(size_t)prog[i].code].name);
-    if (!cont) break;
+    const Op &op = prog[i];
+    bool cont = true;
+    std::string annot;
+    if (op.code == O_PROP_CREATE || op.code == O_PROP_WRITE || op.code == O_PROP_DROP) {
+      if (use_props) {
+        if (op.code == O_PROP_CREATE) { static const int tmap[8] = {PT_INT, PT_BOOL, PT_DOUBLE, PT_STRING, PT_VEC3D, PT_BOOL, PT_BOOL, PT_INT}; cont = bank.create(op.a[0] % PK_COUNT, tmap[op.a[1] % 8], op.a[2] % 3, op.a[3] % 5, annot); }
+        else if (op.code == O_PROP_WRITE) cont = bank.write(op.a[0], op.a[1], 1 + op.a[2] % 9, annot);
+        else bank.drop(op.a[0], annot);
+        if (cont)
+          for (size_t k = 0; k < I.suts.size(); ++k) {
+            std::string m = bank.check(*I.suts[k], k);
+            if (!m.empty()) { I.set_fail((twin && k > 0) ? "C12" : "C03", "after " + annot + ": " + m); cont = false; break; }
+          }
+      }
+      res.annot.push_back(annot);
+    } else if (id == "C17" && op.code >= O_SWAP_V && op.code <= O_SWAP_C) {
+      // swap, swap back (must restore the exact state), swap again (leave it applied)
+      std::string all;
+      for (swap_phase = 0; swap_phase < 3 && cont; ++swap_phase) {
+        cont = I.run_op(op);
+        all += (all.empty() ? "" : " | ") + I.cur_annot;
+      }
+      swap_phase = 0;
+      res.annot.push_back(all);
+    } else {
+      cont = I.run_op(op);
+      res.annot.push_back(I.cur_annot);
+    }
+    st.count(std::string("op:") + optable()[(size_t)op.code].name);
+    if (!cont || !I.fail.empty()) break;
   }
-  st.count("steps_checked", c01.queries);
+  st.count("queries_checked", c01.queries);
   std::string bu = std::string(S.vbu ? "V" : "-") + (S.ebu ? "E" : "-") + (S.fbu ? "F" : "-");
   st.count("final_bottom_up:" + bu);
   if (!I.fail.empty()) {
@@ -87,7 +268,7 @@ vf::CaseResult run_case(const std::string &id, const Program &prog, Stats &st) {
     }
   }
   if (id == "C01") res.nontrivial = have_cell && mutated_after_cell && nonempty_after_mutation;
-  else if (id == "C02") res.nontrivial = big_closure_delete;
+  else res.nontrivial = nt;
   return res;
 }
 
